@@ -795,3 +795,19 @@ Theorem C14_coarse_fragment_multiplier_refuted :
                [(S "weight", VFlt (S "1.0")); (S "charge", VFlt (S "0.0"))]; [(S "weight", VFlt (S "1.0")); (S "charge", VFlt (S "0.0"))] ]] = 111%nat.
 Proof. exact coarse_multiplier_refuted. Qed.
 Print Assumptions C14_coarse_fragment_multiplier_refuted.
+
+(** the REMOVED copy of a `!` class (bounded, one witness): {[#A][#B]}.{#A=C[C;k=v][!],#B=[!][C;k=w;0.5]C} - the two definitions
+    annotate the shared atom differently; the merged atom (returned key 4) lists both coarse nodes and keeps the SURVIVOR's
+    values, B's k = w and weight 0.5 are not transferred (the implementation does the same).  Which value a shared atom
+    should carry is not fixed by the property text: outside the statement, recorded as fact *)
+Example C14_squashed_removed_copy_small :
+  (fd <- rc_fd ;;
+   '(m1, fg1) <- resolve_disconnected fd rc_base ;; '(m2, _) <- bonding_step true true rc_base m1 fg1 ;; m3 <- Squash.squash_atoms m2 ;;
+   fo <- resolve_step_full true true fd rc_base (Some m3) ;;
+   Ok (map (fun n => (nk n, aget (S "fragid") (na n), aget (S "k") (na n), aget (S "weight") (na n)))
+           (filter (fun n => match aget (S "element") (na n) with Some (VStr e) => negb (str_eqb e (S "H")) | _ => true end) (fo_mol fo))))
+  = Ok [(0, Some (VList [VInt 0]), None, Some (VInt 1));
+        (4, Some (VList [VInt 0; VInt 1]), Some (VStr (S "v")), Some (VFlt (S "1.0")));
+        (7, Some (VList [VInt 1]), None, Some (VInt 1))].
+Proof. exact squashed_removed_copy_small. Qed.
+Print Assumptions C14_squashed_removed_copy_small.
